@@ -115,9 +115,15 @@ async def run_schedule(cfg, events, settle=8):
     lost = False
     obs = []
     try:
+        t_before = loop.time()
         p.connection_made(t)
+        t_after = loop.time()
         h0 = p.timeout_handle
-        delay = None if h0 is None else round(h0.when() - loop.time(), 1)
+        # the timer was armed between t_before and t_after: its delay lies in [when - t_after, when - t_before]
+        delay = None
+        if h0 is not None:
+            lo, hi = h0.when() - t_after, h0.when() - t_before
+            delay = 30.0 if lo - 1e-6 <= 30.0 <= hi + 1e-6 else round(hi, 3)
         def armed():
             h = p.timeout_handle
             return h is not None and not h.cancelled() and not fired["f"]
